@@ -356,13 +356,49 @@ Definition preg_primary (r : preg) (tok : string) : option string :=
 
 (** [Program.run([prog, tok])] for an argument-less task: the parser picks the
     context, the executor looks its *primary name* up again and runs that. *)
-Definition cli_run (c : coll) (tok : string) : result (option nat) :=
+Definition cli_token (c : coll) (tok : string) : result (option nat) :=
   match parser_of c with
   | Err e => Err e
   | Ok r =>
       match preg_primary r tok with
       | None => Ok None                       (* ParseError: nothing runs *)
       | Some p => match getitem c p with
+                  | Ok t => Ok (Some (t_id t))
+                  | Err e => Err e
+                  end
+      end
+  end.
+
+(** [Program.run([prog])], no task on the command line: the executor runs
+    [collection[collection.default]] when there is a default; otherwise the
+    program prints its help and runs nothing. *)
+Definition cli_default (c : coll) : result (option nat) :=
+  match parser_of c with
+  | Err e => Err e
+  | Ok _ =>
+      match c_default c with
+      | Some d =>
+          if String.eqb d "" then Ok None else
+          match getitem c d with
+          | Ok t => Ok (Some (t_id t))
+          | Err e => Err e
+          end
+      | None => Ok None
+      end
+  end.
+
+Definition cli_run (c : coll) (tok : string) : result (option nat) :=
+  if String.eqb tok "" then cli_default c else cli_token c tok.
+
+(** [Program.run([prog, "--help", tok])]: per-task help for a parser context,
+    showing the docstring of [collection[tok]]; otherwise a parse error. *)
+Definition cli_help (c : coll) (tok : string) : result (option nat) :=
+  match parser_of c with
+  | Err e => Err e
+  | Ok r =>
+      match preg_primary r tok with
+      | None => Ok None
+      | Some _ => match getitem c tok with
                   | Ok t => Ok (Some (t_id t))
                   | Err e => Err e
                   end
